@@ -284,4 +284,14 @@ def rule_mirror_shared(ctx):
     ctx.obls.extend(o for o in sub.obls if o["key"].startswith(("FLOW-ROUTE:mirror", "FLOW-PIPE:siblings", "FLOW-PIPE:left", "FLOW-PIPE:right", "FLOW-ROUTE:forward", "FLOW-ROUTE:backward")))
 
 
-RULES = [rule_ext_table, rule_det3, rule_accessors, rule_flow_roles, rule_mirror_shared]
+def rule_roles_reach_the_checks(ctx):
+    """a file's role decides which admission checks it gets (the second .lp is the program, the first .lp - without a .spec - the specification):
+    each `ensure_*` must test the item it is handed, not a fixed field (C11's ensure templates and their enforcement)"""
+    from . import c11
+    sub = type(ctx)(ctx.prop, ctx.tier, ctx.facts)
+    c11.rule_enforcement(sub)
+    c11.rule_ensure_templates(sub)
+    ctx.obls.extend(sub.obls)
+
+
+RULES = [rule_ext_table, rule_det3, rule_accessors, rule_flow_roles, rule_mirror_shared, rule_roles_reach_the_checks]
